@@ -135,18 +135,19 @@ pub fn entry_json<'a, I: Iterator<Item = (&'a String, &'a StateIdx)>>(entries: I
 
 /// Renumbering table used by code generation: for every state of the simplified DFA its index in
 /// the generated `match`, whether it gets its own arm, and the arm pattern (`-1` for `_`).
-pub fn renumber_json<T, A, F: Fn(StateIdx) -> StateIdx>(
+pub fn renumber_json<T, A, F: Fn(StateIdx) -> StateIdx, G: Fn(StateIdx) -> bool>(
     dfa: &DFA<T, A>,
     n_inlined: usize,
     renumber: F,
+    is_inlined: G,
 ) -> String {
     let n_states = dfa.states.len();
     let mut out = String::new();
-    for (idx, state) in dfa.states.iter().enumerate() {
+    for (idx, _state) in dfa.states.iter().enumerate() {
         if idx != 0 {
             out.push(',');
         }
-        let has_arm = !(state.predecessors.len() == 1 && !state.initial);
+        let has_arm = !is_inlined(StateIdx(idx));
         let StateIdx(renum) = renumber(StateIdx(idx));
         let pat: i64 = if renum + n_inlined + 1 == n_states {
             -1
